@@ -89,6 +89,27 @@ theorem all_closed_of_no_abort (c : Cfg) (hnd : (c.members.map (·.name)).Nodup)
   rw [run_eq] at hab
   cases h1 : (preFinal c evs).abort <;> simp_all [Option.or]
 
+/-- **closed up to the failing member**: when an expression cannot be evaluated the audition ends, but the final round is
+still due (also when it was the start round that failed: repair 88efe9c) — it closes, one by one and in audience order, every
+member it reaches before the member whose evaluation fails again.  `pre` are the members the final round gets through
+without an abort; what comes after them can no longer touch them. -/
+theorem closed_up_to_the_failing_member (c : Cfg) (hnd : (c.members.map (·.name)).Nodup) (evs : List Ev)
+    (tEnd : Rat) (pre post : List Member) (hsplit : c.members = pre ++ post)
+    (hab : (pre.foldl (rvisit c true tEnd) (finalBegin c evs tEnd)).abort = none) :
+    ∀ m ∈ pre, ((run c evs tEnd).aud m.name).auditing = false := by
+  intro m hm
+  show ((finalRound c evs tEnd).aud m.name).auditing = false
+  rw [finalRound_eq_fold, hsplit, List.foldl_append]
+  have hnd' : ((pre ++ post).map (·.name)).Nodup := by rw [← hsplit]; exact hnd
+  rw [List.map_append, List.nodup_append] at hnd'
+  obtain ⟨hpre, _, hdisj⟩ := hnd'
+  have hother : ∀ m' ∈ post, m'.name ≠ m.name := by
+    intro m' hm' e
+    exact hdisj m.name (List.mem_map.mpr ⟨m, hm, rfl⟩) m'.name (List.mem_map.mpr ⟨m', hm', rfl⟩) e.symm
+  rw [(fold_same c true tEnd post hother _).auditing]
+  exact fold_final_closes c tEnd pre hpre _
+    (fun k hk => audOK_finalBegin c hnd evs tEnd k (by rw [hsplit]; simp [hk])) hab m hm
+
 /-- consequently the marker stream of every member is exactly `(start (rep|err)* stop)*`:
 nothing is left open. -/
 theorem all_periods_complete (c : Cfg) (hnd : (c.members.map (·.name)).Nodup) (evs : List Ev)
